@@ -1170,6 +1170,13 @@ class Program:
     def closure_body(self, ty):
         if ty in self.bodies:
             return self.bodies[ty]
+        if ty.startswith("{coroutine@") and not getattr(self, "_co_indexed", False):
+            # async fn bodies: the constructing function contains the `{coroutine@SPAN}` aggregate, its poll function is `::{closure#0}`
+            self._co_indexed = True
+            for name, f in self.funcs.items():
+                if name + "::{closure#0}" in self.funcs:
+                    for sm in re.finditer(r"= \{coroutine@([^ }]+:\d+:\d+: \d+:\d+)", f.text):
+                        self.span_bodies.setdefault(sm.group(1), self.funcs[name + "::{closure#0}"])
         m = re.search(r"@([^ }]+:\d+:\d+: \d+:\d+)", ty)
         if m:
             return self.span_bodies.get(m.group(1))
